@@ -65,23 +65,59 @@ def lossless_diff(inp: Any, out: Any, path: str = "") -> str:
     return "" if tagged(inp) == tagged(out) else f"{path}: {inp!r} became {out!r}"
 
 
-def added_members(cls, inp: Dict[str, Any], out: Dict[str, Any]) -> List[str]:
-    """Members present in out but not in inp that are not a declared default of cls."""
-    bad = []
-    fields = {(f.alias or a): f for a, f in cls.model_fields.items()}
+def _model_variants(ann) -> List[type]:
+    from chuk_mcp.protocol.mcp_pydantic_base import McpPydanticBase
+    out = []
+    if inspect.isclass(ann) and issubclass(ann, McpPydanticBase):
+        out.append(ann)
+    for a in typing.get_args(ann):
+        out += _model_variants(a)
+    return out
+
+
+def added_members(cls, inp: Dict[str, Any], out: Dict[str, Any], path: str = "") -> List[str]:
+    """Members present in `out` but not in `inp` that are not a declared default of the model they sit in.
+    Recurses along the declared types: inside a model-typed member the nested model's defaults are allowed,
+    inside plain dict / list / Any payloads nothing may be added at all."""
+    bad: List[str] = []
+    hints = modelgen._hints(cls)
+    fields = {(modelgen.SPEC_WIRE_NAMES.get(a) or f.alias or a): (a, f) for a, f in cls.model_fields.items()}
     for k, v in out.items():
-        if k in inp:
+        af = fields.get(k)
+        if k not in inp:
+            if af is None:
+                bad.append(f"{path}.{k}={v!r} (not a declared field)")
+                continue
+            f = af[1]
+            default = f.default if f.default_factory is None else f.default_factory()
+            if hasattr(default, "model_dump"):
+                default = default.model_dump(by_alias=True, exclude_none=True)
+            if tagged(default) != tagged(v) and not (isinstance(default, (int, float)) and default == v):
+                bad.append(f"{path}.{k}={v!r} (declared default {default!r})")
             continue
-        f = fields.get(k)
-        if f is None:
-            bad.append(f"{k}={v!r} (not a declared field)")
-            continue
-        default = f.default if f.default_factory is None else f.default_factory()
-        if hasattr(default, "model_dump"):
-            default = default.model_dump(by_alias=True, exclude_none=True)
-        if tagged(default) != tagged(v):
-            bad.append(f"{k}={v!r} (declared default {default!r})")
+        ann = hints.get(af[0]) if af else None
+        variants = _model_variants(ann) if ann is not None else []
+        bad += _added_in_value(variants, inp[k], v, f"{path}.{k}")
     return bad
+
+
+def _added_in_value(variants: List[type], iv: Any, ov: Any, path: str) -> List[str]:
+    if isinstance(iv, dict) and isinstance(ov, dict):
+        if variants:
+            results = [added_members(c, iv, ov, path) for c in variants]
+            return min(results, key=len)
+        extra = [k for k in ov if k not in iv]
+        bad = [f"{path}.{k}={ov[k]!r} (added inside an untyped payload)" for k in extra]
+        for k in iv:
+            if k in ov:
+                bad += _added_in_value([], iv[k], ov[k], f"{path}.{k}")
+        return bad
+    if isinstance(iv, list) and isinstance(ov, list) and len(iv) == len(ov):
+        bad = []
+        for i, (a, b) in enumerate(zip(iv, ov)):
+            bad += _added_in_value(variants, a, b, f"{path}[{i}]")
+        return bad
+    return []
 
 
 def sentinel_wires() -> Dict[str, Dict[str, Any]]:
@@ -159,7 +195,7 @@ def run(ctx):
     if outs["pydantic"]["pydantic_available"] is not True or outs["fallback"]["pydantic_available"] is not False:
         ctx.inconclusive_because("backend selection not effective")
         return
-    for backend in ("pydantic", "fallback"):
+    for backend in ("pydantic", "fallback", "pydantic_rev", "fallback_rev"):
         for c, r in zip(mine, outs[backend]["reports"]):
             cls = models[c["cls"]]
             case = dict(c, backend=backend)
